@@ -582,3 +582,66 @@ def loop_early_exits(fn):
                 if e["bb"] in r:
                     out.append((lp, e))
     return out
+
+
+# ---- format_args! templates --------------------------------------------------------------------
+def decode_template(bs):
+    """decode the byte encoding of a format_args! template: [('lit', str) | ('arg', spec)]; None if an unknown code is met.
+    Encoding on this toolchain: n (<0x80) followed by n literal bytes; 0xC0 = next argument with default formatting; 0x00 = end."""
+    out = []
+    i = 0
+    try:
+        while i < len(bs):
+            b = bs[i]
+            if b == 0:
+                return out
+            if b < 0x80:
+                out.append(("lit", bytes(bs[i + 1:i + 1 + b]).decode("utf-8")))
+                i += 1 + b
+            elif b == 0xC0:
+                out.append(("arg", None))
+                i += 1
+            else:
+                return None
+        return out
+    except Exception:
+        return None
+
+
+def fmt_pieces(v):
+    """for a value that is `format!(..)` (std::fmt::format(Arguments::new(template, [Argument::new_*(x), ..]))), return
+    [('lit', s) | ('arg', node)] in order; None when v is not such a call or the template cannot be decoded"""
+    v = peel(v)
+    n = 0
+    while v.kind == "call" and v.d["term"].get("name") in ("must_use",) and v.kids and n < 4:
+        v = peel(v.kids[0])
+        n += 1
+    if not (v.kind == "call" and (v.d["term"].get("resolved") or "") == "std::fmt::format" and v.kids):
+        return None
+    a = peel(v.kids[0])
+    if not (a.kind == "call" and (a.d["term"].get("resolved") or "").startswith("std::fmt::Arguments") and len(a.kids) >= 1):
+        return None
+    tv = a.kids[0].d.get("c", {}).get("value") if a.kids[0].kind == "const" else None
+    if not tv or "bytes" not in tv:
+        return None
+    pieces = decode_template(tv["bytes"])
+    if pieces is None:
+        return None
+    args = []
+    if len(a.kids) > 1:
+        arr = peel(a.kids[1])
+        if arr.kind == "agg":
+            args = [(k.kids[0] if (k.kind == "call" and k.kids) else k) for k in arr.kids]
+    out = []
+    ai = 0
+    for (k, x) in pieces:
+        if k == "lit":
+            out.append(("lit", x))
+        else:
+            if ai >= len(args):
+                return None
+            out.append(("arg", args[ai]))
+            ai += 1
+    if ai != len(args):
+        return None
+    return out
